@@ -129,11 +129,13 @@ theorem issuedCells_nodup (specs : List (FileSpec β)) :
 /-- Main lemma: lengths are the true ones, the completion order is any permutation of the
 tasks; the result is the concatenation in file order. -/
 theorem loadAsConcatenated_of_lengths (specs : List (FileSpec β)) (hint : Option (List Nat))
+    (hne : specs ≠ [])
     (hl : resolveLengths specs hint = .ok ((specs.map (·.loaded)).map List.length))
     (order : List Nat) (hp : order.Perm (List.range specs.length)) (init : Nat → β) :
     loadAsConcatenated specs hint order init
       = .ok ((specs.map (·.loaded)).map List.length, (specs.map (·.loaded)).flatten) := by
   unfold loadAsConcatenated
+  rw [if_neg (by simpa using hne)]
   rw [hl]
   simp only
   rw [tasks_eq_tasksFrom]
@@ -276,12 +278,13 @@ theorem zip_map_snd_of_length_eq {γ δ : Type} : ∀ (a : List γ) (b : List δ
 
 /-- **a hint whose total is wrong is always rejected** (by a worker's broadcast error or by
 the final total check), whatever the completion order. -/
-theorem hint_total_mismatch_rejected (specs : List (FileSpec β)) (hint : List Nat)
+theorem hint_total_mismatch_rejected (specs : List (FileSpec β)) (hint : List Nat) (hne : specs ≠ [])
     (hsum : hint.sum ≠ ((specs.map (·.loaded)).map List.length).sum)
     (order : List Nat) (hp : order.Perm (List.range specs.length)) (init : Nat → β) :
     ∃ e, loadAsConcatenated specs (some hint) order init = .error e ∧
       (e = .improperlyConfigured ∨ e = .valueError ∨ e = .dataInvalid) := by
   unfold loadAsConcatenated
+  rw [if_neg (by simpa using hne)]
   rw [show resolveLengths specs (some hint)
       = (if hint.length ≠ specs.length then .error .improperlyConfigured else .ok hint) from rfl]
   by_cases hlen : hint.length ≠ specs.length
